@@ -47,6 +47,7 @@ EVENTS = {
     "sec_bad_in_include": [b'sec { include("bad.conf") }\n'],
     "unreadable_stream": ["PSE:0"],
     "writeonly_stream": ["PSE:1"],
+    "stream_fails_in_string": ["PSE:2"],
 }
 PROBES = [b"i = 5\n", b's = "str"\n', b"s = 'sq'\n", b"/* c */ i = 6\n", b"l = {7, 8}\n", b"sec { x = 9 }\n", b'm "t" { y = v }\n',
           b'include("good.conf")\n', b"i = x\n", b'"\n', b"*/ i = 7\n", b"'\n", b"f = 1.5\n", b"f = 2.5 i = 0x10\n",
@@ -132,6 +133,16 @@ def generate(rng, tier):
         lines += ["X 0 0", "X 1 0", "PB 0 " + hx(t), "D 0", "X 3 0", "PB 3 " + hx(PROBES[0]), "D 3"]
         cases.append(Case("n%d" % n, lines, {"hist": [("nested_parsecb", 0)], "probe": 0, "nested": True}))
         n += 1
+    # a callback that parses a stream which cannot be read (a directory, a write-only stream, one that fails in the middle of
+    # a string) into context 1: the running parse goes on to its end as if nothing had happened
+    for k in (0, 1, 2):
+        for host in (b'i = 1\nhook("nestpse%d")\ni = 7\nl = {5, 6}\ns = tail\n', b'sec { hook("nestpse%d") x = 4 }\ni = 8\n',
+                     b'include("good.conf")\nhook("nestpse%d")\ns = "after"\n'):
+            cdir = "%s/n%d" % (root, n)
+            lines = schema_lines(SCHEMA) + ["CWD " + hx(cdir)] + ["FILE %s reg %s" % (hx(nm), hx(c)) for nm, c in FILES]
+            lines += ["X 0 0", "X 1 0", "PB 0 " + hx(host.replace(b"%d", str(k).encode())), "D 0", "X 3 0", "PB 3 " + hx(PROBES[0]), "D 3"]
+            cases.append(Case("n%d" % n, lines, {"hist": [("nested_unreadable", 0)], "probe": 0, "nested": True}))
+            n += 1
     # a callback that FREES another root context during a parse, after includes were used earlier in the process
     # (accepted, aborted, nested): the rest of the running text must still be read
     for pre in ([], [b'include("good.conf")\n'], [b'include("bad.conf")\n'], [b'include("good.conf")\n', b'include("self.conf")\n'],
